@@ -43,6 +43,8 @@ pub enum ScriptK {
     OneByte,
     OpReturn,
     Long,
+    /// OP_RETURN followed by one of a menu of push forms (see `null_data_menu`)
+    Null(u8),
 }
 #[derive(Clone, Copy, Debug, PartialEq, Eq)]
 pub enum ProofK {
@@ -161,7 +163,29 @@ pub fn script(k: ScriptK) -> Script {
         // OP_RETURN <4 bytes> OP_1 <2 bytes> : a null datum script
         ScriptK::OpReturn => Script::from(vec![0x6a, 0x04, 0xde, 0xad, 0xbe, 0xef, 0x51, 0x02, 0xca, 0xfe]),
         ScriptK::Long => Script::from((0..300u32).map(|i| (i % 251) as u8).collect::<Vec<u8>>()),
+        ScriptK::Null(k) => Script::from(null_data_menu()[k as usize].clone()),
     }
+}
+
+/// OP_RETURN scripts covering every kind of push opcode (and some that are not null data): bare, OP_1NEGATE,
+/// OP_RESERVED, OP_1, OP_16 (the last push-only opcode), OP_NOP (not push-only), direct pushes, the three
+/// PUSHDATA forms, a truncated push, several opcodes in a row
+pub fn null_data_menu() -> Vec<Vec<u8>> {
+    vec![
+        vec![0x6a],
+        vec![0x6a, 0x4f],
+        vec![0x6a, 0x50],
+        vec![0x6a, 0x51],
+        vec![0x6a, 0x60],
+        vec![0x6a, 0x61],
+        vec![0x6a, 0x02, 0xab, 0xcd],
+        vec![0x6a, 0x4c, 0x01, 0xaa],
+        vec![0x6a, 0x4d, 0x02, 0x00, 0xaa, 0xbb],
+        vec![0x6a, 0x4e, 0x01, 0x00, 0x00, 0x00, 0xaa],
+        vec![0x6a, 0x02, 0xab],
+        vec![0x6a, 0x60, 0x60, 0x4f, 0x01, 0x07, 0x5f],
+        vec![0x6a, 0x00],
+    ]
 }
 
 /// `salt` makes the proofs of different roles and positions different byte strings (two fields that
@@ -360,6 +384,18 @@ pub fn one_deviation_envs() -> Vec<(String, EnvSpec)> {
     }
     for s in [ScriptK::Empty, ScriptK::OpReturn, ScriptK::Long] {
         add(&format!("out0.script={s:?}"), &|e| e.outputs[0].script = s);
+    }
+    let nmenu = null_data_menu().len() as u8;
+    for k in 0..nmenu {
+        add(&format!("out0.script=null-data#{k}"), &|e| e.outputs[0].script = ScriptK::Null(k));
+    }
+    // two null-data outputs in one transaction, in both orders (the C side sizes one shared opcode array
+    // for all of them in a first pass and fills it in a second)
+    for (a, b) in [(4u8, 6u8), (6, 4), (11, 6), (6, 11), (4, 4), (11, 11), (5, 6), (10, 4)] {
+        add(&format!("out0.script=null-data#{a} + a third output with null-data#{b}"), &|e| {
+            e.outputs[0].script = ScriptK::Null(a);
+            e.outputs.push(OutSpec { script: ScriptK::Null(b), value: ValK::Explicit(0), ..base_out() });
+        });
     }
     for p in [ProofK::Short, ProofK::Long] {
         add(&format!("out0.surjection={p:?}"), &|e| e.outputs[0].surjection = p);
